@@ -51,6 +51,45 @@ func runC06(c *Ctx) {
 		}
 	}
 	r.Floor("R06.1", "write sites in html.RenderTo", len(sites), 1)
+	// the strings of the data value (id, class, caption) are the wrapper's own settings, as they were set: whatever
+	// is stored into a string field of the data's type is a field of the wrapper read as it is (or a constant)
+	if exec != nil && len(exec.Call.Args) >= 3 && ht != nil {
+		dt := unwrap(exec.Call.Args[2], true).Type()
+		if pt, isP := dt.Underlying().(*types.Pointer); isP {
+			dt = pt.Elem()
+		}
+		if st, isS := dt.Underlying().(*types.Struct); isS {
+			nstr := 0
+			for i := 0; i < st.NumFields(); i++ {
+				f := st.Field(i)
+				if !isStringType(f.Type()) {
+					continue
+				}
+				for _, fs := range c.StoresTo(f) {
+					nstr++
+					good, why := true, ""
+					for _, v := range phiClosure(unwrap(fs.St.Val, true)) {
+						v = unwrap(v, true)
+						if _, isC := v.(*ssa.Const); isC {
+							continue
+						}
+						if fl, _ := loadedField(v); fl != nil && fieldOfStruct(ht, fl) {
+							continue
+						}
+						if fv, isFV := v.(*ssa.Field); isFV && fieldOfStruct(ht, fieldOfField(fv)) {
+							continue
+						}
+						if _, isPar := v.(*ssa.Parameter); isPar {
+							continue
+						}
+						good, why = false, "the value is "+v.String()+": an attribute or caption would no longer decode to the string that was set"
+					}
+					r.Check("R06.1", FuncName(fs.Fn), "template data field "+f.Name()+" is the wrapper's own setting, unaltered", fs.St.Pos(), good, why)
+				}
+			}
+			r.Floor("R06.1", "string fields of the template data", nstr, 1)
+		}
+	}
 	for _, f2 := range c.ModFuncs("html") {
 		if f2 == fn {
 			continue
@@ -804,4 +843,18 @@ func c06Rebinds(c *Ctx) {
 		r.Check("R06.3", FuncName(fn), fmt.Sprintf("Execute #%d runs the wrapper's own template, not one shared at package level", nx), ex.Pos(), own, "the template is reachable from a package-level variable: another wrapper's render rebinds its functions while this one executes")
 	})
 	r.Floor("R06.3", "template executions in RenderTo", nx, 1)
+}
+
+// fieldOfStruct: f is one of the (direct) fields of the named struct type n.
+func fieldOfStruct(n *types.Named, f *types.Var) bool {
+	st, ok := n.Underlying().(*types.Struct)
+	if !ok || f == nil {
+		return false
+	}
+	for i := 0; i < st.NumFields(); i++ {
+		if st.Field(i) == f {
+			return true
+		}
+	}
+	return false
 }
